@@ -113,18 +113,25 @@ func ZZVerif_C20_ClaimCalldata() {
 			if preEtrogEvent {
 				s.kind += 2
 			}
+			if zzverif.Param("MIXED") == 1 {
+				// calls of either contract generation next to an event of either generation
+				s.kind = zzverif.Int("callKindAny", 0, 3)
+			}
 			cc := &zzClaimCall{globalIndex: gi, mer: zzverif.Hash("mer"), rer: zzverif.Hash("rer"), origNet: zzverif.U32("origNet"), origAddr: zzverif.Addr("origAddr"),
 				destNet: zzverif.U32("destNet"), destAddr: zzverif.Addr("destAddr"), amount: new(big.Int).SetUint64(zzverif.U64("amount")), metadata: zzverif.Bytes("metadata", 2)}
 			if !s.matches {
 				// any other global index (it may agree with the event's in some of its parts: flag, rollup, leaf)
 				var giOther *big.Int
-				if preEtrogEvent {
+				if s.kind >= 2 {
 					giOther = new(big.Int).SetUint64(uint64(zzverif.U32("otherIndex")))
 				} else {
 					giOther = GenerateGlobalIndex(zzverif.Bool("otherMainnet"), zzverif.U32("otherRollup"), zzverif.U32("otherLeaf"))
 				}
 				zzverif.Assume(giOther.Cmp(gi) != 0)
 				cc.globalIndex = giOther
+			} else if s.kind >= 2 {
+				// a pre-etrog call carries a 32-bit index: it matches only an event whose global index fits into 32 bits
+				zzverif.Assume(gi.IsUint64() && gi.Uint64() < 1<<32)
 			}
 			cc.proofLER[0] = zzverif.Hash("pl0")
 			cc.proofLER[31] = zzverif.Hash("pl31")
